@@ -4,6 +4,8 @@ import json, os, subprocess
 HERE = os.path.dirname(os.path.dirname(os.path.abspath(__file__)))
 
 CLAIMED = {
+ "C01": ("exploration", "5.C01", "refinement of simulated multi-file builds (seeded schedules over the two-pass coordinator) against a small executable reference model written from the README (R-spec)",
+         "R-spec shares no code with txtpp and is shaped differently (items + declarative concatenation vs streaming pending-newline state machine). Multi-file runs exercise first-pass/second-pass re-execution and dependency outputs read from disk under seeded schedules; single-file runs are plain seeded generation and are reported separately in the evidence. Cases outside the documented domain (DESIGN.md 4.3) are skipped and counted; when a source ends with a directive, outputs are compared modulo trailing line endings."),
  "C02": ("exploration", "5.C02", "seeded schedule search over a parked-thread controller; differential oracle vs one-file-at-a-time reference (R-seq) plus in-run probes of what commands saw",
          "Real coordinator, pool threads, channel and preprocessor run under a seeded scheduler that owns every synchronisation point (task begin, task end before send, coordinator poll, optional io points); every generated path is pre-populated with stale bytes. Holds for the sampled (project, inputs, K, schedule) tuples; all labelled DAGs on <=4 files are swept in every run."),
  "C03": ("exploration", "5.C03", "seeded schedule search; deterministic livelock/step-cap/watchdog detectors; execution counters (marker commands) and R-seq completeness",
@@ -31,7 +33,6 @@ CLAIMED = {
 }
 
 NA = {
- "C01": "claimed later in this build (R-spec engine not yet registered)",
  "C12": "pure function of one source text (line-ending normalisation): no schedule, clock, fault, crash point or interleaving for a simulator to vary; DESIGN.md section 6",
  "C13": "pure function of (source text, one boolean option): nothing for a scheduler or fault injector to vary; DESIGN.md section 6",
  "C14": "pure function of the line sequence; HashMap order is erased by a position sort; quantifier is bounded-exhaustive enumeration, a different technique; DESIGN.md section 6",
@@ -56,7 +57,7 @@ for pid, (level, ref, technique, text) in sorted(CLAIMED.items()):
         "replay_cmd_template": "./check replay {path}",
         "engine": "txtpp-sim",
         "level_claimed": {"category": level, "text": text, "design_ref": f"DESIGN.md section {ref}"},
-        "level_note": "Trusted base: the add-only hooks behind cargo feature `verif` (park threads, permute two unordered collections), the harness controller, and for every property except C01 txtpp's own per-file preprocess() used as sequential reference. Sampling, not proof.",
+        "level_note": "Trusted base: the add-only hooks behind cargo feature `verif` (park threads, permute two unordered collections), the harness controller, and for every property except C01 (whose reference is the independent R-spec model) txtpp's own per-file preprocess() used as sequential reference. Sampling, not proof.",
         "technique": "deterministic simulation with fault injection: " + technique,
     })
 
